@@ -3,27 +3,27 @@ package rules
 func init() {
 	reg("C07", &PropSpec{
 		Rules:       []Rule{r("T1", RuleT1), r("H1", RuleH1), r("MP1", RuleMP1), r("R1", RuleR1), r("R5", RuleR5), r("K1", RuleK1), r("MC1", RuleMC1)},
-		Explanation: "Decided: expansion is guarded against every cycle of macros, direct or mutual - the expansion SCC contains an on-stack-set guard (T1); a second macro with one name is refused before the insert and the on-stack mark precedes the recursion (H1); a pasted macro is used only where the table lookup found it (MP1); pasted children are nested by the same resolver as written ones (R1); MACRO and PASTE are consumed by the expansion stage and never reach the catalog builder, so an unpasted macro contributes nothing (K1). Not decided: equality of the catalog with the inlined document; a cycle among macros none of which is pasted is not rejected (it is never expanded).",
+		Explanation: "Decided: expansion is guarded against every cycle of macros, direct or mutual - the expansion SCC contains an on-stack-set guard (T1); a second macro with one name is refused before the insert and the on-stack mark precedes the recursion (H1); a pasted macro is used only where the table lookup found it (MP1); pasted children are nested by the same resolver as written ones (R1); MACRO and PASTE are consumed by the expansion stage and never reach the catalog builder, so an unpasted macro contributes nothing (K1). Not decided: equality of the catalog with the inlined document; a cycle among macros none of which is pasted is not rejected (it is never expanded). No function returns success because a key is already present without calling the duplicate-rejecting inserter (MC1); the paste pass restores the context by a Parent step only (R5).",
 		Trusted:     trustedCommon,
 	})
 	reg("C12", &PropSpec{
 		Rules:       []Rule{r("H1", RuleH1), r("IM1", RuleIM1), r("E3ii", RuleE3ii), r("N2", RuleN2), r("T1", RuleT1), r("RV1", RuleRV1), r("PA1", RulePA1)},
-		Explanation: "Decided: an inherited property is inserted only when the object has no property with that key - an own property is an override error, an already inherited one is skipped (H1 on Unshift: each at most once); inheriting never stores through a pointer into the base type, nodes are inserted as value copies (IM1: bases left as declared); the per-run 'already expanded' memo must not carry a caller-owned accumulator (E3ii: known finding F13); ContentJSight only under a JSight notation test (N2); the allOf recursion is guarded by a visited set (T1); every loop over an interaction's responses visits all of them, so allOf in a later response is expanded whatever precedes it (RV1). Not decided: order of inherited properties, transitive completeness, shared grandchildren.",
+		Explanation: "Decided: an inherited property is inserted only when the object has no property with that key - an own property is an override error, an already inherited one is skipped (H1 on Unshift: each at most once); inheriting never stores through a pointer into the base type, nodes are inserted as value copies (IM1: bases left as declared); the per-run 'already expanded' memo must not carry a caller-owned accumulator (E3ii: known finding F13); ContentJSight only under a JSight notation test (N2); the allOf recursion is guarded by a visited set (T1); every loop over an interaction's responses visits all of them, so allOf in a later response is expanded whatever precedes it (RV1). Not decided: order of inherited properties, transitive completeness, shared grandchildren. Every per-kind expansion call and the walk over a node's children are unconditional up to nil/notation tests on the argument's own access path, user types first (PA1); the membership test guarding Unshift compares nothing but the key (H1).",
 		Trusted:     trustedCommon,
 	})
 	reg("C13", &PropSpec{
 		Rules:       []Rule{r("H1", RuleH1), r("PS1", RulePS1), r("N2", RuleN2), r("D1", RuleD1), r("CK1", RuleCK1), r("TW1", RuleTW1), r("FC1", RuleFC1), r("LC1", RuleLC1("core/collect_core_path.go", "core/path_parameter.go", "core/path_variables.go", "core/compile_catalog.go", "core/raw_path_variables.go", "directive/path.go"))},
-		Explanation: "Decided: a parameter declared twice for one prefix is refused before the insert into the project-wide prefix map (H1); Path schemas are read only after all of them passed the flat-object check, and leftover properties are an error for every Path directive (PS1); a Path body that resolves to a non-JSight type is a diagnostic (N2); the unused-names message is deterministic (D1); every path-registering handler runs the similar-paths check (CK1). Not decided: the splitting of a path into (prefix, name) pairs and the binding itself (string logic).",
+		Explanation: "Decided: a parameter declared twice for one prefix is refused before the insert into the project-wide prefix map (H1); Path schemas are read only after all of them passed the flat-object check, and leftover properties are an error for every Path directive (PS1); a Path body that resolves to a non-JSight type is a diagnostic (N2); the unused-names message is deterministic (D1); every path-registering handler runs the similar-paths check (CK1). Not decided: the splitting of a path into (prefix, name) pairs and the binding itself (string logic). Accumulating loops of the binding code run over all elements (LC1); the Path walk visits every subtree (TW1); token types of a Path property's user type are an allow-list (FC1).",
 		Trusted:     trustedCommon,
 	})
 	reg("C15", &PropSpec{
 		Rules:       []Rule{r("DN1", RuleDN1), r("DN2", RuleDN2), r("AN1", RuleAN1), r("K2p", RuleK2p), r("K1", RuleK1)},
-		Explanation: "Decided: the description setters are reached only from the one Description handler, after the normaliser succeeded and its result was found non-empty, and they store exactly string(result) for all four hosts (DN1); every store into Directive.Annotation and SchemaContentJSight.Note takes the result of the one annotation normaliser, whichever spelling the scanner saw (AN1); the look-ahead that ends a description reads the same table as the keyword lookup and is what the scanner's description state calls (K2p); Description has one consumer (K1). Not decided: the normal form itself, idempotence, agreement of the scanner's delimitation with the re-parse (string semantics).",
+		Explanation: "Decided: the description setters are reached only from the one Description handler, after the normaliser succeeded and its result was found non-empty, and they store exactly string(result) for all four hosts (DN1); every store into Directive.Annotation and SchemaContentJSight.Note takes the result of the one annotation normaliser, whichever spelling the scanner saw (AN1); the look-ahead that ends a description reads the same table as the keyword lookup and is what the scanner's description state calls (K2p); Description has one consumer (K1). Not decided: the normal form itself, idempotence, agreement of the scanner's delimitation with the re-parse (string semantics). The look-ahead's length guard, first-byte filter, skip list and byte classes agree with the scanner's keyword set (K2p); CR/CRLF are replaced on every value path of the normaliser (DN2).",
 		Trusted:     trustedCommon,
 	})
 	reg("C20", &PropSpec{
 		Rules:       []Rule{r("E3i", RuleE3i), r("E3ii", RuleE3ii), r("NI", RuleNI("uniqURLPath", "similarPaths", "onlyOneProtocolIntoURL", "expandingMacros", "processedUserTypes", "processedByAllOf")), r("G2", RuleG2), r("OP1", RuleOP1), r("PA1", RulePA1), r("R4", RuleR4), r("K2p", RuleK2p)},
-		Explanation: "Decided over every run-wide memo and uniqueness set of the core: a cached value depends on nothing its key does not cover (E3i: known finding F11) and a visited set carries no caller-owned accumulator (E3ii: known finding F13); the uniqueness sets are read only by lookups whose outcome is an error return (or, for visited sets, skipping work), so a fresh, non-colliding declaration cannot change another entry through them (NI); no package-level state (G2) and no state shared through option closures (OP1). Not decided: coupling through the schema objects that receive all types and rules (library behaviour); entry-by-entry equality of two catalogs.",
+		Explanation: "Decided over every run-wide memo and uniqueness set of the core: a cached value depends on nothing its key does not cover (E3i: known finding F11) and a visited set carries no caller-owned accumulator (E3ii: known finding F13); the uniqueness sets are read only by lookups whose outcome is an error return (or, for visited sets, skipping work), so a fresh, non-colliding declaration cannot change another entry through them (NI); no package-level state (G2) and no state shared through option closures (OP1). Not decided: coupling through the schema objects that receive all types and rules (library behaviour); entry-by-entry equality of two catalogs. The expansion of a declared schema is not conditional on its content (PA1); a hoisted method keeps no Parent through which another URL's Tags leak (R4); a keyword followed by a tab still ends a preceding description (K2p).",
 		Trusted:     trustedCommon,
 	})
 }
